@@ -133,6 +133,45 @@ func runC16(r *Report) {
 		}
 		return true
 	}
+	// counter updates: atomic.AddInt32(&numUnchoking, k), or a call of a private wrapper that passes its parameter on as
+	// the delta (addNumUnchoking(delta))
+	counterWrapper := map[*ssa.Function]int{}
+	for _, f := range p.SrcFuncs() {
+		if relPkg(f) != "peer" || f.Parent() != nil {
+			continue
+		}
+		allInstrs(f, func(in ssa.Instruction) {
+			cc, ok := in.(*ssa.Call)
+			if !ok || !isStdCall(cc, "sync/atomic", "", "AddInt32") || cc.Call.Args[0] != ssa.Value(numUn) {
+				return
+			}
+			for k, prm := range f.Params {
+				if stripIntConv(cc.Call.Args[1]) == ssa.Value(prm) {
+					counterWrapper[f] = k
+				}
+			}
+		})
+	}
+	counterDelta := func(in ssa.Instruction) (int64, bool) {
+		cc, ok := in.(*ssa.Call)
+		if !ok {
+			return 0, false
+		}
+		if isStdCall(cc, "sync/atomic", "", "AddInt32") && cc.Call.Args[0] == ssa.Value(numUn) {
+			if _, isW := counterWrapper[cc.Parent()]; isW {
+				return 0, false // the wrapper's own update: judged at its calls
+			}
+			d, _ := constInt(cc.Call.Args[1])
+			return d, true
+		}
+		if h := cc.Call.StaticCallee(); h != nil {
+			if k, isW := counterWrapper[h]; isW && k < len(cc.Call.Args) {
+				d, _ := constInt(cc.Call.Args[k])
+				return d, true
+			}
+		}
+		return 0, false
+	}
 	nStores := 0
 	for _, acc := range p.fieldAccesses(am) {
 		fa, ok := acc.Instr.(*ssa.FieldAddr)
@@ -162,8 +201,7 @@ func runC16(r *Report) {
 			// matching counter update in the same block
 			delta := int64(0)
 			for _, in := range c.Block().Instrs {
-				if cc, ok := in.(*ssa.Call); ok && isStdCall(cc, "sync/atomic", "", "AddInt32") && cc.Call.Args[0] == ssa.Value(numUn) {
-					d, _ := constInt(cc.Call.Args[1])
+				if d, ok := counterDelta(in); ok {
 					delta += d
 				}
 			}
@@ -213,13 +251,13 @@ func runC16(r *Report) {
 			continue
 		}
 		allInstrs(f, func(in ssa.Instruction) {
-			cc, ok := in.(*ssa.Call)
-			if !ok || !isStdCall(cc, "sync/atomic", "", "AddInt32") || cc.Call.Args[0] != ssa.Value(numUn) {
+			d, isDelta := counterDelta(in)
+			if !isDelta {
 				return
 			}
+			cc := in.(*ssa.Call)
 			r.Fn(f)
 			key := "numUnchoking-modified/" + fname(f)
-			d, _ := constInt(cc.Call.Args[1])
 			isRunDefer := false
 			var theDefer *ssa.Defer
 			allInstrs(run, func(i2 ssa.Instruction) {
